@@ -45,6 +45,9 @@ func randomModel(rng *rand.Rand, maxTypes, maxRels int) *AbsModel {
 		relsOf[o] = append([]string{}, relNames[:2+rng.Intn(maxRels-1)]...)
 	}
 	wild := rng.Intn(3) == 0 // "wild" models reference anything anywhere (mostly rejected); tame ones are biased towards acceptance
+	// "cyclic" models: unions only, every direct assignment lists usersets of arbitrary relations and tuple-to-usersets abound,
+	// so that several tuple cycles interlock (accepted, weights Infinite): the cycle-resolution code is where map orders matter
+	cyclic := !wild && rng.Intn(3) == 0
 	conds := []string{"", "", "", "c1", "c2"}
 	m := &AbsModel{Types: []AbsType{}}
 	pick := func(xs []string) string { return xs[rng.Intn(len(xs))] }
@@ -90,6 +93,10 @@ func randomModel(rng *rand.Rand, maxTypes, maxRels int) *AbsModel {
 					usedThis = true
 					return &AbsTree{K: "this"}
 				case x < 8:
+					if cyclic {
+						usedThis = true
+						return &AbsTree{K: "this"}
+					}
 					if !wild && ri > 0 {
 						return &AbsTree{K: "cu", Rel: relsOf[o][rng.Intn(ri)]}
 					}
@@ -119,7 +126,7 @@ func randomModel(rng *rand.Rand, maxTypes, maxRels int) *AbsModel {
 					return leaf()
 				}
 				switch x := rng.Intn(8); {
-				case x < 5:
+				case x < 5 || cyclic:
 					t := &AbsTree{K: "union"}
 					for k := 0; k < 2+rng.Intn(2); k++ {
 						t.Ch = append(t.Ch, tree(depth-1, constrained))
@@ -141,7 +148,7 @@ func randomModel(rng *rand.Rand, maxTypes, maxRels int) *AbsModel {
 				k := 1 + rng.Intn(4)
 				for j := 0; j < k; j++ {
 					switch x := rng.Intn(10); {
-					case x < 4:
+					case x < 4 && !(cyclic && j > 0):
 						restr = append(restr, AbsRestr{T: users[rng.Intn(1+rng.Intn(len(users)))], Kind: "type", Cond: pick(conds)})
 					case x < 7:
 						restr = append(restr, AbsRestr{T: pick(users), Kind: "wild", Cond: pick(conds)})
